@@ -185,3 +185,96 @@ Fixpoint canon (t : ty) (opt : bool) (v : value) {struct t} : value :=
     end
   | _ => v
   end.
+
+(* ---- [interp] with its recursive calls abstracted, for the proofs
+   ([interp_unfold] shows it is the function above) ---- *)
+Section InterpBody.
+  Variable rec : ty -> fparams -> value -> outcome tlv.
+
+  Definition interp_pick (p : fparams) :=
+    fix pick (l : list (fparams * ty)) (ws : list value) (k : nat) : outcome tlv :=
+      match l, ws with
+      | (ap, at') :: l', w :: ws' =>
+        match k with
+        | O => do alt <- rec at' ap w;
+               Ok (match p_tag p with None => alt | Some n => Cons 2 n [alt] end)
+        | S k' => pick l' ws' k'
+        end
+      | _, _ => Err
+      end.
+
+  Definition interp_seq_go :=
+    fix go (l : list (fparams * ty)) (ws : list value) : outcome (list tlv) :=
+      match l, ws with
+      | [], [] => Ok []
+      | (fp, ft) :: l', w :: ws' =>
+        if p_optional fp && is_nil w then go l' ws'
+        else if p_open fp then Err
+        else do x <- rec ft fp w; do r <- go l' ws'; Ok (x :: r)
+      | _, _ => Err
+      end.
+
+  Definition interp_slice_go (t' : ty) (p : fparams) :=
+    fix go (ws : list value) : outcome (list tlv) :=
+      match ws with
+      | [] => Ok []
+      | w :: ws' => do x <- rec t' (clear_tag p) w; do r <- go ws'; Ok (x :: r)
+      end.
+
+  Definition interp_step (strict : bool) (t : ty) (p : fparams) (v : value) : outcome tlv :=
+    match t with
+    | TPtr t' => match v with VPtr v' => rec t' p v' | _ => Err end
+    | TBool => match v with VBool b => Ok (retag p (Prim 0 1 [if b then 255 else 0])) | _ => Err end
+    | TInt => match v with VInt z => Ok (retag p (Prim 0 2 (twos z))) | _ => Err end
+    | TEnum => match v with VInt z => Ok (retag p (Prim 0 10 (twos z))) | _ => Err end
+    | TBits =>
+      match v with
+      | VBits bs n => Ok (retag p (Prim 0 3 ((8 * ((n + 7) / 8) - n) :: bs)))
+      | _ => Err end
+    | TOctets =>
+      match v with
+      | VBytes bs => Ok (retag p (Prim 0 4 bs))
+      | VNil => Ok (retag p (Prim 0 4 []))
+      | _ => Err end
+    | TNull => Ok (retag p (Prim 0 5 []))
+    | TString k =>
+      match v with
+      | VBytes bs =>
+        let u := if p_strtype p =? 0 then (if strict then k else 0) else p_strtype p in
+        if strict && (u =? 0) then Err
+        else Ok (retag p (Prim 0 u bs))
+      | _ => Err end
+    | TOid => Err
+    | TWrap t' => match v with VStruct (v0 :: _) => rec t' p v0 | _ => Err end
+    | TChoice alts =>
+      match v with
+      | VStruct (VInt pr :: vs) =>
+        if (pr <? 1) || (zlen alts <? pr) || p_open p then Err else
+        interp_pick p alts vs (Z.to_nat (pr - 1))
+      | _ => Err
+      end
+    | TSeq fields =>
+      match v with
+      | VStruct vs =>
+        do ch <- interp_seq_go fields vs;
+        Ok (retag p (Cons 0 (if p_set p then 17 else 16) ch))
+      | _ => Err
+      end
+    | TSlice t' =>
+      let elems := match v with VSlice vs => Some vs | VNil => Some [] | _ => None end in
+      match elems with
+      | Some vs =>
+        do ch <- interp_slice_go t' p vs;
+        Ok (retag p (Cons 0 (if p_set p then 17 else 16) ch))
+      | None => Err
+      end
+    | TUnsupported => Err
+    end.
+End InterpBody.
+
+Lemma interp_unfold strict t p v : interp strict t p v = interp_step (interp strict) strict t p v.
+Proof. destruct t; reflexivity. Qed.
+
+Definition ser_list (l : list tlv) : list Z :=
+  (fix go (l : list tlv) : list Z :=
+     match l with [] => [] | y :: r => ser y ++ go r end) l.
